@@ -85,6 +85,9 @@ class C19(Prop):
         'NUL and DEL may be dropped by the tokenizer but nothing else',
         'a token text may contain NUL/DEL (kept) - allowed by the statement',
     )
+    probes = ('tok', 'buf', 'reach')
+    probed_every = 40
+    reach_required = ['category.categorize', 'tokens.next_token', 'tokens.tokenize', 'tokens.tokenize_ignore', 'tokens.tokenize_spacers', 'tokens.tokenize_string', 'utils.Token.__iadd__']
     min_nontrivial = 1000
     budget_s = {'quick': 200, 'thorough': 2400}
     exhaustive = {
